@@ -1,6 +1,7 @@
 package oracle
 
 import (
+	"strings"
 	"tqsim/model"
 )
 
@@ -75,7 +76,7 @@ func (c *ctx) reach() {
 					pr["single-byte-delivery"]++
 				}
 			case "read-end":
-				if e.S == "i/o timeout" && !in(ends, cum) && cum > 0 {
+				if strings.HasSuffix(e.S, "i/o timeout") && !in(ends, cum) && cum > 0 {
 					pr["deadline-fired-inside-packet"]++
 				}
 			}
